@@ -339,8 +339,15 @@ macro_rules! bezier_impl_cubic_axis {
                 // There are two Real solutions for the equation
                 let discriminant_sqrt = discriminant.sqrt();
 
-                let first_extremum = (-b - discriminant_sqrt) / (a + a);
-                let second_extremum = (-b + discriminant_sqrt) / (a + a);
+                // Numerically stable roots: -b -/+ sqrt(D) cancels catastrophically for one of the two roots
+                // when `a` is tiny (e.g. a degree-elevated quadratic), so that root is taken as c / q instead.
+                let (first_extremum, second_extremum) = if b < T::zero() {
+                    let q = (-b + discriminant_sqrt) / two;
+                    (c / q, q / a)
+                } else {
+                    let q = (-b - discriminant_sqrt) / two;
+                    (q / a, c / q)
+                };
 
                 if is_between01(first_extremum) {
                     if is_between01(second_extremum) {
